@@ -100,14 +100,15 @@ def gen_requests():
         for fr in ("TCP", "RTU"):
             T = f"{name}Request{fr}"
             # constructor
-            cl = ["safety[C01,C06]", "modifies[C01] nothing"]
+            c6 = ",C06" if kind == "read" else ""  # only the four read constructors are reached from the request builder
+            cl = [f"safety[C01{c6}]", "modifies[C01] nothing"]
             if kind == "fc16":
                 cl.append("alias res.Data := data if err == nil")
             if kind == "fc23":
                 cl.append("alias res.WriteData := writeData if err == nil")
-            cl.append(f"ensures[C01.legal,C06] ({legal_args(kind, mx)}) <==> err == nil")
-            cl.append("ensures[C01,C06,C10] err != nil <==> res == nil")
-            cl.append(f"ensures[C01,C05,C06,C09] err == nil ==> {ctor_fields(kind, fr)}")
+            cl.append(f"ensures[C01.legal{c6}] ({legal_args(kind, mx)}) <==> err == nil")
+            cl.append(f"ensures[C01{c6},C10] err != nil <==> res == nil")
+            cl.append(f"ensures[C01,C05{c6},C09] err == nil ==> {ctor_fields(kind, fr)}")
             if kind == "fc15":
                 cl.append("ensures[C01,C11] err == nil ==> forall k in 0..len(coils) :: ((res.Data[k/8] >> uint(k%8)) & 1 == 1) == coils[k]")
                 cl.append("ensures[C01] err == nil ==> forall k in len(coils)..8*len(res.Data) :: (res.Data[k/8] >> uint(k%8)) & 1 == 0")
